@@ -30,7 +30,9 @@ SCHEMAS = {
     # auto_clear: auto with auto_select and no code-length bound; initials / finals, space as a delimiter handled by the
     # speller (use_space), auto_clear: manual with a code-length bound
     "vs_auto": dict(procs=["speller", "selector", "navigator", "express_editor"], alphabet="abc", delimiters="'",
-                    pageSize=3, uniq=1, autoSelect=0, autoClear="auto"),   # autoSelect=1 once AutoSelectPreviousMatch is in the model
+                    pageSize=3, uniq=1, autoSelect=1, autoClear="auto"),
+    "vs_autof": dict(procs=["speller", "selector", "navigator", "fluid_editor"], alphabet="abc", delimiters="'",
+                     pageSize=3, uniq=1, autoSelect=1),
     "vs_initials": dict(procs=["speller", "selector", "navigator", "fluid_editor"], alphabet="abcd", initials="abc", finals="d",
                         delimiters=" '", pageSize=4, uniq=0, useSpace=1, maxCodeLength=3, autoClear="manual"),
 }
@@ -694,6 +696,23 @@ def reopen_grid(rows_for, hs, schemas=("vs_script", "vs_fluid", "vs_multi")):
                                    ["key %d 0" % XK["BackSpace"], "key %d 0" % XK["BackSpace"]], tid))
 
 
+def earlier_match_grid(rows_for, hs, schemas=("vs_auto", "vs_autof")):
+    """directed: auto_select without a code-length bound.  When a key leaves the input without candidates, the speller falls
+    back to the previous segment's match (AutoSelectPreviousMatch) or shortens the input until an earlier match is found
+    (FindEarlierMatch, recursive), committing (express) or confirming (fluid) it and going on with the rest.  Every input of
+    3-4 letters over four small tables whose keys leave gaps."""
+    import itertools
+    tables = {"e1": [("ab", "P", "", "")], "e2": [("ab", "P", "", ""), ("c", "Q", "", ""), ("c", "R", "", "")],
+              "e3": [("a", "S", "", ""), ("bc", "T", "", "")], "e4": [("ab", "P", "", ""), ("ab", "U", "", ""), ("ca", "V", "", ""), ("abca", "W", "", "")]}
+    for sid in schemas:
+        for tn, rows in tables.items():
+            tid = "%s_%s" % (tn, sid)
+            rows_for[tid] = rows
+            for n in (3, 4):
+                for w in itertools.product("abc", repeat=n):
+                    hs.append((sid, ["key %d 0" % ord(ch) for ch in w] + ["key %d 0" % XK["space"], "read_commit"], tid))
+
+
 def standard_histories(c, n_hist, n_ops, profile="mixed", schemas=None):
     """corpus first, then directed boundary grids, then seeded generation; returns (histories, rows_for)"""
     rows_for, hs = {}, []
@@ -702,6 +721,7 @@ def standard_histories(c, n_hist, n_ops, profile="mixed", schemas=None):
         hs.append((sid, ops, "c%d" % k))
     paging_grid(rows_for, hs)
     reopen_grid(rows_for, hs)
+    earlier_match_grid(rows_for, hs)
     schemas = schemas or list(SCHEMAS)
     for t in range(max(1, n_hist // 8)):
         for sid in schemas:
